@@ -82,6 +82,8 @@ structure Inv (W : World) (st : St) : Prop where
   /-- only the cheater's second-stage transactions spend without being the victim's -/
   cheater : ∀ X sp, st.chain.spent X = some sp → sp.byVictim = false →
     ∃ k v, X = .commit v ∧ v ∈ W.second k ∧ st.chain.conf (.second k) = some sp.height
+  /-- a transaction of the cheater that is confirmed went through the monitor's spend checks: its outputs are watched -/
+  watched : ∀ p s, st.chain.conf p = some s → st.seen p = true
 
 theorem inv_init (W : World) (h0 : Nat) : Inv W (St.init h0) := by
   constructor <;> intros <;> simp_all [St.init]
@@ -99,6 +101,7 @@ theorem inv_raise {W : World} {st : St} (hi : Inv W st) (h : Nat) (hle : st.chai
     exact ⟨by simp only; omega, h2⟩
   · exact hi.secondOk
   · exact hi.cheater
+  · exact hi.watched
 
 /-! ### the per-transaction transformers -/
 
@@ -211,7 +214,8 @@ theorem secondHits_true {W : World} {k : Nat} {X : Outpoint} (hh : secondHits W 
 theorem inv_apply_commit {W : World} {st : St} {h : Nat} (hi : Inv W st) (htip : st.chain.tip = h)
     (hn : st.chain.conf .commit = none) :
     Inv W { chain := { st.chain with conf := fun p => if p = .commit then some h else st.chain.conf p },
-            claim := regClaims W h .commit st.claim } := by
+            claim := regClaims W h .commit st.claim,
+            seen := fun p => if p = .commit then true else st.seen p } := by
   obtain ⟨hcl, hsp, hsec⟩ := inv_no_commit hi hn
   constructor
   · intro X c hc
@@ -247,6 +251,14 @@ theorem inv_apply_commit {W : World} {st : St} {h : Nat} (hi : Inv W st) (htip :
   · intro X sp hs
     simp only at hs
     rw [hsp X] at hs; cases hs
+  · intro p s hs
+    simp only at hs ⊢
+    by_cases hp : p = .commit
+    · rw [if_pos hp]
+    · rw [if_neg hp] at hs
+      cases p with
+      | commit => exact absurd rfl hp
+      | second k => rw [hsec k] at hs; cases hs
 
 theorem inv_apply_second {W : World} {st : St} {h k : Nat} (hi : Inv W st) (htip : st.chain.tip = h)
     (hnone : st.chain.conf (.second k) = none) (hc : (st.chain.conf .commit).isSome)
@@ -254,7 +266,8 @@ theorem inv_apply_second {W : World} {st : St} {h k : Nat} (hi : Inv W st) (htip
     Inv W { chain := { st.chain with
               conf := fun p => if p = .second k then some h else st.chain.conf p,
               spent := fun X => if secondHits W k X then some ⟨h, false, false⟩ else st.chain.spent X },
-            claim := markSpent h (secondHits W k) (regClaims W h (.second k) st.claim) } := by
+            claim := markSpent h (secondHits W k) (regClaims W h (.second k) st.claim),
+            seen := fun p => if p = .second k then true else st.seen p } := by
   -- nothing of transaction `second k` is tracked yet
   have hnc : ∀ X, parentOf X = .second k → st.claim X = none := by
     intro X hp
@@ -363,11 +376,18 @@ theorem inv_apply_second {W : World} {st : St} {h k : Nat} (hi : Inv W st) (htip
       by_cases hkk : Parent.second k' = Parent.second k
       · rw [hkk, hnone] at hck; cases hck
       · rw [if_neg hkk]; exact hck
+  · -- watched
+    intro p s hs
+    simp only at hs ⊢
+    by_cases hp : p = .second k
+    · rw [if_pos hp]
+    · rw [if_neg hp] at hs ⊢; exact hi.watched p s hs
 
 theorem inv_apply_justice {W : World} {st : St} {h : Nat} {ops : List Outpoint} (hi : Inv W st) (htip : st.chain.tip = h)
     (hok : ∀ X, X ∈ ops → (st.chain.conf (parentOf X)).isSome ∧ st.chain.spent X = none) :
     Inv W { chain := { st.chain with spent := fun X => if ops.contains X then some ⟨h, true, false⟩ else st.chain.spent X },
-            claim := markSpent h (fun X => ops.contains X) st.claim } := by
+            claim := markSpent h (fun X => ops.contains X) st.claim,
+            seen := st.seen } := by
   constructor
   · intro X c' hc'
     obtain ⟨c, ho, rfl⟩ := markSpent_some hc'
@@ -408,6 +428,7 @@ theorem inv_apply_justice {W : World} {st : St} {h : Nat} {ops : List Outpoint} 
       subst hs; cases hb
     · simp only [List.contains_eq_mem, hh, decide_false, Bool.false_eq_true, if_false] at hs
       exact hi.cheater X sp hs hb
+  · exact hi.watched
 
 theorem inv_applyTx {W : World} {st st' : St} {h : Nat} {t : BTx} (hi : Inv W st) (htip : st.chain.tip = h)
     (ha : applyTx W h st t = some st') : Inv W st' ∧ st'.chain.tip = h := by
@@ -424,7 +445,7 @@ theorem inv_applyTx {W : World} {st st' : St} {h : Nat} {t : BTx} (hi : Inv W st
     split at ha
     · rename_i hcond
       simp only [Bool.and_eq_true, decide_eq_true_eq, Option.isNone_iff_eq_none, List.all_eq_true] at hcond
-      obtain ⟨⟨⟨_, h2⟩, h3⟩, h4⟩ := hcond
+      obtain ⟨⟨⟨⟨_, _⟩, h2⟩, h3⟩, h4⟩ := hcond
       cases ha
       exact ⟨inv_apply_second hi htip h2 h3 h4, htip⟩
     · cases ha
@@ -547,6 +568,7 @@ theorem inv_mature {W : World} {st : St} (h : Nat) (hi : Inv W st) : Inv W (matu
       simp only [Option.map_some, Option.some.injEq] at hs'
       subst hs'
       exact hi.cheater X sp hsp hb
+  · exact hi.watched
 
 theorem bump_claim_some {W : World} {h : Nat} {st : St} {X : Outpoint} {c' : Claim} (hb : (bump W h st).claim X = some c') :
     ∃ c, st.claim X = some c ∧ c'.created = c.created ∧ c'.spentAt = c.spentAt ∧
@@ -590,11 +612,162 @@ theorem inv_bump {W : World} {st : St} (h : Nat) (hi : Inv W st) : Inv W (bump W
   · exact hi.spentOk
   · exact hi.secondOk
   · exact hi.cheater
+  · exact hi.watched
 
-theorem connect_some {W : World} {st st' : St} {txs : List BTx} {bc : List Outpoint} (hc : connect W st txs = some (st', bc)) :
+/-! ### the block filter: every transaction of a consistent block reaches the spend checks -/
+
+/-- the TRANSLATED `matches` of filter_block: the transaction spends a watched output, or ANY of its inputs — whatever its
+    position, whatever the other inputs are — spends a transaction matched earlier in this block -/
+theorem filterMatches_iff {α : Type} [DecidableEq α] (sw : Bool) (ins matched : List α) :
+    filterMatches sw ins matched = true ↔ (sw = true ∨ ∃ i, i ∈ ins ∧ i ∈ matched) := by
+  simp [filterMatches, List.any_eq_true]
+
+/-- the cheater's transactions confirmed so far were watched before the block or have been matched in it -/
+def BlockOk (st : St) (seen0 : Parent → Bool) (matched : List TxRef) : Prop :=
+  ∀ p s, st.chain.conf p = some s → seen0 p = true ∨ TxRef.tx p ∈ matched
+
+theorem second_mem_inputs {W : World} {k v : Nat} (hv : v ∈ W.second k) : some v ∈ W.inputsOf k := by
+  unfold World.second World.seconds at hv
+  unfold World.inputsOf
+  rw [List.getElem?_map] at hv
+  cases hi : W.inputs[k]? with
+  | none => rw [hi] at hv; simp at hv
+  | some t =>
+    rw [hi] at hv
+    simp only [Option.map_some, Option.getD_some, List.mem_filterMap, id_eq] at hv
+    obtain ⟨a, ha, rfl⟩ := hv
+    simpa using ha
+
+theorem matched_of_parent {W : World} {seen0 : Parent → Bool} {matched : List TxRef} {t : BTx} {p : Parent}
+    (hin : TxRef.tx p ∈ inputRefs W t) (hp : seen0 p = true ∨ TxRef.tx p ∈ matched) :
+    filterMatches (spendsWatched W seen0 t) (inputRefs W t) matched = true := by
+  rw [filterMatches_iff]
+  rcases hp with hs | hm
+  · left
+    unfold spendsWatched
+    rw [List.any_eq_true]
+    exact ⟨.tx p, hin, hs⟩
+  · right; exact ⟨.tx p, hin, hm⟩
+
+theorem applyTx_justice_nil {W : World} {h : Nat} {st st' : St} (ha : applyTx W h st (.justice []) = some st') : st' = st := by
+  simp only [applyTx, List.all_nil, if_true, Option.some.injEq] at ha
+  subst ha
+  have h1 : markSpent h (fun X => ([] : List Outpoint).contains X) st.claim = st.claim := by
+    funext X
+    simp only [markSpent, List.contains_nil, Bool.false_eq_true, if_false]
+    cases st.claim X <;> rfl
+  have h2 : (fun X => if ([] : List Outpoint).contains X = true then some (⟨h, true, false⟩ : Spend) else st.chain.spent X) = st.chain.spent := by
+    funext X; simp
+  rw [h1, h2]
+
+/-- every transaction the model accepts in a block passes the filter (an input-less victim transaction aside, which does nothing) -/
+theorem valid_tx_matched {W : World} {h : Nat} {st st' : St} {seen0 : Parent → Bool} {matched : List TxRef} {t : BTx}
+    (hbo : BlockOk st seen0 matched) (ha : applyTx W h st t = some st') :
+    filterMatches (spendsWatched W seen0 t) (inputRefs W t) matched = true ∨ t = .justice [] := by
+  cases t with
+  | commit =>
+    left
+    rw [filterMatches_iff]
+    left
+    simp [spendsWatched, inputRefs]
+  | second k =>
+    left
+    simp only [applyTx] at ha
+    split at ha
+    · rename_i hcond
+      simp only [Bool.and_eq_true, decide_eq_true_eq, Bool.not_eq_true', List.isEmpty_eq_false_iff] at hcond
+      obtain ⟨⟨⟨⟨_, hne⟩, _⟩, hc⟩, _⟩ := hcond
+      obtain ⟨hcm, hcme⟩ := Option.isSome_iff_exists.1 hc
+      obtain ⟨v, hv⟩ := List.exists_mem_of_ne_nil _ hne
+      have hin : TxRef.tx .commit ∈ inputRefs W (.second k) := by
+        simp only [inputRefs, List.mem_map]
+        exact ⟨some v, second_mem_inputs hv, rfl⟩
+      exact matched_of_parent hin (hbo .commit hcm hcme)
+    · cases ha
+  | justice ops =>
+    cases ops with
+    | nil => right; rfl
+    | cons X rest =>
+      left
+      simp only [applyTx] at ha
+      split at ha
+      · rename_i hcond
+        simp only [List.all_cons, Bool.and_eq_true] at hcond
+        obtain ⟨hp, hpe⟩ := Option.isSome_iff_exists.1 hcond.1.1
+        have hin : TxRef.tx (parentOf X) ∈ inputRefs W (.justice (X :: rest)) := by
+          simp [inputRefs]
+        exact matched_of_parent hin (hbo _ hp hpe)
+      · cases ha
+
+theorem applyTx_conf {W : World} {h : Nat} {st st' : St} {t : BTx} (ha : applyTx W h st t = some st') (p : Parent) (s : Nat)
+    (hs : st'.chain.conf p = some s) : selfRef t = .tx p ∨ st.chain.conf p = some s := by
+  cases t with
+  | commit =>
+    simp only [applyTx] at ha
+    split at ha
+    · cases ha
+      simp only at hs
+      by_cases hp : p = .commit
+      · left; rw [hp]; rfl
+      · rw [if_neg hp] at hs; right; exact hs
+    · cases ha
+  | second k =>
+    simp only [applyTx] at ha
+    split at ha
+    · cases ha
+      simp only at hs
+      by_cases hp : p = .second k
+      · left; rw [hp]; rfl
+      · rw [if_neg hp] at hs; right; exact hs
+    · cases ha
+  | justice ops =>
+    simp only [applyTx] at ha
+    split at ha
+    · cases ha; right; exact hs
+    · cases ha
+
+theorem blockOk_step {W : World} {h : Nat} {st st' : St} {seen0 : Parent → Bool} {matched : List TxRef} {t : BTx}
+    (hbo : BlockOk st seen0 matched) (ha : applyTx W h st t = some st') : BlockOk st' seen0 (selfRef t :: matched) := by
+  intro p s hs
+  rcases applyTx_conf ha p s hs with hself | hold
+  · right; rw [hself]; exact List.mem_cons_self
+  · rcases hbo p s hold with h1 | h2
+    · left; exact h1
+    · right; exact List.mem_cons_of_mem _ h2
+
+/-- **the filter loses nothing**: on a consistent block, filtering first (with the outputs watched before the block) and
+    processing the matched transactions is the same as processing every transaction -/
+theorem applyBlock_eq {W : World} {h : Nat} {seen0 : Parent → Bool} (txs : List BTx) {st : St} {matched : List TxRef}
+    (hbo : BlockOk st seen0 matched) : applyBlock W h seen0 st matched txs = applyTxs W h st txs := by
+  induction txs generalizing st matched with
+  | nil => rfl
+  | cons t rest ih =>
+    simp only [applyBlock, applyTxs]
+    cases ha : applyTx W h st t with
+    | none => simp [skipTx, ha]
+    | some st1 =>
+      rcases valid_tx_matched hbo ha with hm | hnil
+      · simp only [hm, if_true, ha]
+        exact ih (blockOk_step hbo ha)
+      · subst hnil
+        have hst : st1 = st := applyTx_justice_nil ha
+        subst hst
+        by_cases hm : filterMatches (spendsWatched W seen0 (.justice [])) (inputRefs W (.justice [])) matched = true
+        · simp only [hm, if_true, ha]
+          exact ih (blockOk_step hbo ha)
+        · simp only [hm, skipTx, ha, Option.map_some]
+          exact ih hbo
+
+theorem connect_eq_all {W : World} {st : St} (hi : Inv W st) (txs : List BTx) : connect W st txs = connectAll W st txs := by
+  have hbo : BlockOk { st with chain := { st.chain with tip := st.chain.tip + 1 } } st.seen [] :=
+    fun p s hs => Or.inl (hi.watched p s hs)
+  simp only [connect, connectAll, applyBlock_eq txs hbo]
+
+theorem connect_some {W : World} {st st' : St} {txs : List BTx} {bc : List Outpoint} (hi : Inv W st) (hc : connect W st txs = some (st', bc)) :
     ∃ st1, applyTxs W (st.chain.tip + 1) { st with chain := { st.chain with tip := st.chain.tip + 1 } } txs = some st1 ∧
       st' = bump W (st.chain.tip + 1) (mature (st.chain.tip + 1) st1) := by
-  simp only [connect] at hc
+  rw [connect_eq_all hi] at hc
+  simp only [connectAll] at hc
   cases ha : applyTxs W (st.chain.tip + 1) { st with chain := { st.chain with tip := st.chain.tip + 1 } } txs with
   | none => rw [ha] at hc; cases hc
   | some st1 =>
@@ -604,7 +777,7 @@ theorem connect_some {W : World} {st st' : St} {txs : List BTx} {bc : List Outpo
 
 theorem inv_connect {W : World} {st st' : St} {txs : List BTx} {bc : List Outpoint} (hi : Inv W st)
     (hc : connect W st txs = some (st', bc)) : Inv W st' ∧ st'.chain.tip = st.chain.tip + 1 := by
-  obtain ⟨st1, ha, rfl⟩ := connect_some hc
+  obtain ⟨st1, ha, rfl⟩ := connect_some hi hc
   obtain ⟨hi1, ht1⟩ := inv_applyTxs txs (inv_raise hi (st.chain.tip + 1) (by omega)) rfl ha
   exact ⟨inv_bump _ (inv_mature _ hi1), by simpa [bump, mature] using ht1⟩
 
@@ -632,7 +805,7 @@ theorem disconnect_some {W : World} {st st' : St} {n : Nat} {bc : List Outpoint}
     st' = { chain := { tip := n, pfinal := st.chain.pfinal,
                        conf := fun p => match st.chain.conf p with | some s => if n < s then none else some s | none => none,
                        spent := fun X => match st.chain.spent X with | some sp => if n < sp.height then none else some sp | none => none },
-            claim := afterDisconnect n st.claim } := by
+            claim := afterDisconnect n st.claim, seen := st.seen } := by
   simp only [disconnect] at hd
   split at hd
   · rename_i hcond
@@ -814,6 +987,11 @@ theorem inv_disconnect {W : World} {st st' : St} {n : Nat} {bc : List Outpoint} 
         refine ⟨k, v, hx, hv, ?_⟩
         rw [hck]; simp only
         rw [if_neg hh]
+  · intro p s hs
+    simp only at hs ⊢
+    cases hp : st.chain.conf p with
+    | none => rw [hp] at hs; cases hs
+    | some s0 => exact hi.watched p s0 hp
 
 /-! ### histories -/
 
@@ -916,14 +1094,15 @@ theorem grows_applyTxs {W : World} {h : Nat} (txs : List BTx) {st st' : St} (ha 
     | none => rw [hs] at ha; cases ha
     | some st1 => rw [hs] at ha; exact (grows_applyTx hs).trans (ih ha)
 
-theorem connect_bc {W : World} {st st' : St} {txs : List BTx} {bc : List Outpoint} (hc : connect W st txs = some (st', bc)) :
+theorem connect_bc {W : World} {st st' : St} {txs : List BTx} {bc : List Outpoint} (hi : Inv W st) (hc : connect W st txs = some (st', bc)) :
     ∃ st1, applyTxs W (st.chain.tip + 1) { st with chain := { st.chain with tip := st.chain.tip + 1 } } txs = some st1 ∧
       st' = bump W (st.chain.tip + 1) (mature (st.chain.tip + 1) st1) ∧
       bc = W.allOutpoints.filter fun X =>
         match (mature (st.chain.tip + 1) st1).claim X with
         | some c => c.spentAt.isNone && ((st.claim X).isNone || timerExpired (st.chain.tip + 1) c.timer)
         | none => false := by
-  simp only [connect] at hc
+  rw [connect_eq_all hi] at hc
+  simp only [connectAll] at hc
   cases ha : applyTxs W (st.chain.tip + 1) { st with chain := { st.chain with tip := st.chain.tip + 1 } } txs with
   | none => rw [ha] at hc; cases hc
   | some st1 =>
@@ -938,7 +1117,7 @@ theorem connect_reissue {W : World} {st st' : St} {txs : List BTx} {bc : List Ou
     st'.chain.tip < c'.timer ∧
     ((st.claim X = none ∨ ∃ c, st.claim X = some c ∧ c.timer ≤ st'.chain.tip) →
         X ∈ bc ∧ c'.timer ≤ st'.chain.tip + LOW_FREQUENCY_BUMP_INTERVAL) := by
-  obtain ⟨st1, ha, rfl, rfl⟩ := connect_bc hc
+  obtain ⟨st1, ha, rfl, rfl⟩ := connect_bc hi hc
   have htip' : (bump W (st.chain.tip + 1) (mature (st.chain.tip + 1) st1)).chain.tip = st.chain.tip + 1 := (inv_connect hi hc).2
   obtain ⟨hi1, _⟩ := inv_applyTxs txs (inv_raise hi (st.chain.tip + 1) (by omega)) rfl ha
   have him := inv_mature (st.chain.tip + 1) hi1
@@ -1037,7 +1216,7 @@ def Fresh (st : St) : Prop :=
 theorem connect_fresh {W : World} {st st' : St} {txs : List BTx} {bc : List Outpoint} (hi : Inv W st)
     (hc : connect W st txs = some (st', bc)) : Fresh st' := by
   have htip := (inv_connect hi hc).2
-  obtain ⟨st1, _, rfl⟩ := connect_some hc
+  obtain ⟨st1, _, rfl⟩ := connect_some hi hc
   intro X c' hx s hs
   obtain ⟨c2, hc2, _, hsp, _⟩ := bump_claim_some hx
   rw [htip]
@@ -1080,7 +1259,7 @@ theorem drain_first {W : World} {st : St} (hi : Inv W st) :
     exact ⟨_, rfl⟩
   obtain ⟨st1, ha⟩ := happ
   have hcon : ∃ bc, connect W st [.justice (active W st)] = some (bump W (st.chain.tip + 1) (mature (st.chain.tip + 1) st1), bc) := by
-    simp only [connect, ha]; exact ⟨_, rfl⟩
+    rw [connect_eq_all hi]; simp only [connectAll, ha]; exact ⟨_, rfl⟩
   obtain ⟨bc, hcon⟩ := hcon
   refine ⟨bump W (st.chain.tip + 1) (mature (st.chain.tip + 1) st1), bc, hcon, ?_, ?_⟩
   · have := (applyTxs_conf_justice ha).1
@@ -1173,8 +1352,8 @@ theorem htlcKinds_fst {S : Type} (tx : List (TxOut S)) (hs : List Htlc) : (htlcK
 /-- the outpoints of the world are exactly the claims of Model/Punish.lean: what `check_spend_counterparty_transaction`
     requests on the revoked commitment, then what `check_spend_counterparty_htlc` requests on each second-stage transaction -/
 theorem ofMonitor_allOutpoints {S : Type} [DecidableEq S] (P : Secrets.Params S) (m : Mon S) (n : Nat) (tx : List (TxOut S))
-    (seconds : List (List Nat)) (csv : Nat) :
-    (World.ofMonitor P m n tx seconds csv).allOutpoints = onConfirmRevoked P m n tx ++ allSecondClaims 0 seconds := by
+    (held : List (List (Option Nat))) (csv : Nat) :
+    (World.ofMonitor P m n tx held csv).allOutpoints = onConfirmRevoked P m n tx ++ allSecondClaimsAt 0 held := by
   simp only [World.allOutpoints, World.ofMonitor, List.map_append, List.map_map]
   congr 1
   · unfold onConfirmRevoked
@@ -1191,5 +1370,45 @@ theorem ofMonitor_allOutpoints {S : Type} [DecidableEq S] (P : Secrets.Params S)
           | some data => exact htlcKinds_fst tx _
     · simp only [hmin, if_false, List.map_nil]
   · simp [Function.comp_def]
+
+/-- the claims on the second-stage transactions: output `p` of transaction `k` for every input `p` that spends the commitment -/
+theorem mem_allSecondClaimsAt (k0 : Nat) (held : List (List (Option Nat))) (X : Outpoint) :
+    X ∈ allSecondClaimsAt k0 held ↔ ∃ k p t v, X = .second (k0 + k) p ∧ held[k]? = some t ∧ t[p]? = some (some v) := by
+  induction held generalizing k0 with
+  | nil => simp [allSecondClaimsAt]
+  | cons t rest ih =>
+    simp only [allSecondClaimsAt, List.mem_append, ih]
+    constructor
+    · rintro (h | ⟨k, p, t', v, rfl, hk, hp⟩)
+      · simp only [secondStageClaimsAt, List.mem_map, List.mem_filter, List.mem_range] at h
+        obtain ⟨p, ⟨hlt, hsome⟩, rfl⟩ := h
+        cases hp : t[p]? with
+        | none => rw [hp] at hsome; cases hsome
+        | some o =>
+          rw [hp] at hsome
+          cases o with
+          | none => cases hsome
+          | some v => exact ⟨0, p, t, v, by simp, by simp, hp⟩
+      · exact ⟨k + 1, p, t', v, by simp only [Outpoint.second.injEq, and_true]; omega, by simpa using hk, hp⟩
+    · rintro ⟨k, p, t', v, rfl, hk, hp⟩
+      cases k with
+      | zero =>
+        left
+        simp only [List.getElem?_cons_zero, Option.some.injEq] at hk
+        subst hk
+        simp only [secondStageClaimsAt, List.mem_map, List.mem_filter, List.mem_range]
+        refine ⟨p, ⟨?_, by rw [hp]⟩, by simp⟩
+        rcases Nat.lt_or_ge p t.length with hl | hl
+        · exact hl
+        · rw [List.getElem?_eq_none hl] at hp; cases hp
+      | succ k =>
+        right
+        exact ⟨k, p, t', v, by simp only [Outpoint.second.injEq, and_true]; omega, by simpa using hk, hp⟩
+
+theorem commit_not_mem_allSecondClaimsAt (k0 : Nat) (held : List (List (Option Nat))) (i : Nat) :
+    Outpoint.commit i ∉ allSecondClaimsAt k0 held := by
+  intro h
+  obtain ⟨_, _, _, _, he, _⟩ := (mem_allSecondClaimsAt k0 held _).1 h
+  cases he
 
 end Ldk.Justice
